@@ -945,6 +945,15 @@ func (tc *typechecker) binaryOp(expr1 ast.Expression, op ast.OperatorType, expr2
 			if t1.Type != t2.Type && !(t1.Untyped() && t1.IsNumeric() && t2.IsNumeric()) {
 				return nil, fmt.Errorf("mismatched types %s and %s", t1.ShortString(), t2.ShortString())
 			}
+			if isComparison(op) && op != ast.OperatorEqual && op != ast.OperatorNotEqual {
+				// A complex constant with a zero imaginary part is not
+				// represented as a complex: check the types.
+				for _, t := range [...]*typeInfo{t1, t2} {
+					if isComplex(t.Type.Kind()) {
+						return nil, fmt.Errorf("operator %s not defined on %s", op, t.ShortString())
+					}
+				}
+			}
 		}
 
 		c, err := t1.Constant.binaryOp(op, t2.Constant)
